@@ -132,6 +132,33 @@ def r1b(repo, run):
         (run.ok if v[0] == 'ok' else run.violation)('C12.' + v[1], fi, 'namespace of the evaluated code', v[2])
 
 
+def r1c(repo, run):
+    """contradiction rule over the evaluation code of !eval nodes: no path looks a key up in a mapping (d[k]) after it has itself
+    established that the key is absent (`k in d` false / `k not in d` true) without storing it in between - such a lookup can only
+    raise KeyError (the persistent-namespace lookup in sys.modules is the instance this guards)"""
+    fns = [repo.func('EvalNode.ayns.on_evaluate_impl')]
+    n = 0
+    for fi in fns:
+        for p in tr.paths_of(repo, fi, follow_exceptions=False, no_inline={'_patch_access_to_globals', '_require_safe', 'get_eval_symbols', 'evaluate_node'}):
+            absent = set()
+            for t, pol in p.facts:
+                for neg, sep in ((False, ' in '), (True, ' not in ')):
+                    if sep in t and pol == neg and not (sep == ' in ' and ' not in ' in t):
+                        k_, d_ = t.rsplit(sep, 1)
+                        absent.add((k_.strip(), d_.strip()))
+            if not absent:
+                continue
+            for e in p.events:
+                if e.kind == 'subscr' and e.value is not None and (e.value.text, e.callee) in absent:
+                    # (facts precede the events they guard; a store into d[k] in between would be a 'store' event with this target)
+                    stored = any(x.kind == 'store' and x.target == '%s[%s]' % (e.callee, e.value.text) for x in p.events[:p.events.index(e)])
+                    if not stored:
+                        run.violation('C12.R1', tr.where(fi, e), norm(e.node)[:80], 'on the path [%s] the key is looked up in %s although the path has just established that it is not there: the lookup raises KeyError (every evaluation of the node fails when no namespace module exists yet)' % (tr.describe(p, 3), e.callee), node=e.node)
+                        return
+            n += 1
+    run.ok('C12.R1', fns[0], 'no lookup of a key the path knows to be absent (%d paths with membership tests)' % n)
+
+
 def r2(repo, run):
     """name resolution of the evaluated code, decided by evaluating GlobalsWrapper.__getattr__ (finite-domain evaluator) for
     every combination of the name being defined by the node's own globals / the config / the builtins"""
@@ -811,6 +838,7 @@ def check(repo, run, tier):
     g(r7r8, repo, run)
     g(r1, repo, run)
     g(r1b, repo, run)
+    g(r1c, repo, run)
     g(r2, repo, run)
     g(r3, repo, run)
     g(r4, repo, run)
@@ -830,6 +858,7 @@ def check(repo, run, tier):
 
 def mutants(repo):
     return [
+        Mutant('namespace-module-looked-up-when-absent', lambda r: in_func(r, 'EvalNode.ayns.on_evaluate_impl', "if self.persistent_namespace and eval_module_name in sys.modules:", "if self.persistent_namespace and eval_module_name not in sys.modules:"), ['C12.R1']),
         Mutant('nested-change-flag-overwritten', lambda r: in_func(r, 'EvalNode._patch_access_to_globals', "                if done_something_sub:\n                    done_something = True\n", "                done_something = done_something_sub\n"), ['C12.R6']),
         Mutant('patched-constant-dropped', lambda r: in_func(r, 'EvalNode._patch_access_to_globals', "                return new_const\n", "                return const\n"), ['C12.R6']),
         Mutant('operand-read-before-opcode', lambda r: in_func(r, 'EvalNode._patch_access_to_globals', "arg = code.co_code[i+1]", "arg = code.co_code[i-1]"), ['C12.R5']),
